@@ -20,7 +20,10 @@ import Emerge.Inst.LexerTmpl
   half size, source length and block alignment (`C19_reader`, `C19_reader_lexeme`): `next`,
   `Retract`, `Lexeme` and `Skip` return what a cursor over the whole source returns, as long as the
   calls stay within the reader's contract (source without NUL; a `Retract` gives back bytes of the
-  pending lexeme; lexeme plus look-ahead fit into one half). UTF-8: the bytes of any text of Unicode
+  pending lexeme, at most one half outstanding). A lexeme may be longer than the buffer: its bytes
+  are kept as they are read (the repair of a defect this model exposed: `Lexeme` used to read them
+  back from the halves, and the refinement needed the hypothesis "lexeme plus look-ahead fit into one
+  half" - the real lexer returned the tail of any token longer than 8 KiB). UTF-8: the bytes of any text of Unicode
   scalar values decode to that text (`C19_utf8`, `Utf8.decode` is the table-driven decoder of the
   emitted `Next`), a rune gives back 1 to 4 bytes, and a text without U+0000 has no NUL byte, so the
   hypothesis of `C19_reader` is met. Not proved: that the emitted `Next` is `Utf8.decode` step by step
@@ -159,19 +162,19 @@ open Emerge.Reader in
 /-- **The two-half reader is the plain stream.** For every source without NUL bytes, every half size `n ≥ 1`
     (the emitted constant is 4096; the check also compiles it with 4 and 8) and every sequence of `next` /
     `Retract(size)` / `Lexeme` / `Skip` calls within the contract, the outputs of the reader (bytes, end of input,
-    lexemes) are those of a cursor over the whole source: independent of the input length, of where the buffer
-    halves fall and of how often a half has been reloaded. -/
+    lexemes of any length) are those of a cursor over the whole source: independent of the input length, of where
+    the buffer halves fall and of how often a half has been reloaded. -/
 theorem C19_reader {src : Nat → Nat} {len n : Nat} (hnf : NulFree src len) (hn : 0 < n) (buf0 : Nat → Nat)
     (ops : List Reader.Op) (outs : List Out) (h : aRun src len n ⟨0, 0, 0⟩ ops = some outs) :
     cRun src len n (init src len n buf0) ops = outs :=
   reader_is_stream hnf hn buf0 ops outs h
 
 open Emerge.Reader in
-/-- `Lexeme` in any reachable state: the bytes between the start of the pending lexeme and the cursor. -/
-theorem C19_reader_lexeme {src : Nat → Nat} {len n : Nat} {s : RState} {k : Nat} {g : Ghost}
-    (h : Inv src len n s k g) (kb : Nat) (hkb : kb ≤ k) (hwin : k + s.pend ≤ kb + n) (hlb : s.lb = cell g n kb) :
-    (lexeme n s).1 = (List.range (k - kb)).map (fun i => src (kb + i)) :=
-  lexeme_refines h kb hkb hwin hlb
+/-- `Lexeme` in any reachable state returns the bytes between the start of the pending lexeme and the cursor —
+    however long the lexeme is (the bytes are kept as they are read, not read back from the buffer halves). -/
+theorem C19_reader_lexeme {src : Nat → Nat} {len n : Nat} {s : RState} {a : AState} {g : Ghost}
+    (h : Inv2 src len n s a g) : (lexeme s).1 = (List.range (a.k - a.kb)).map (fun i => src (a.kb + i)) :=
+  h.pending
 
 open Emerge.Reader in
 /-- Non-vacuity: half size 4, an 11-byte source, a run that crosses three half boundaries, gives bytes back across a
